@@ -55,9 +55,7 @@ def coq_case(c, o):
 
 
 # ---- oracle ---------------------------------------------------------------------------------------------------------
-def in_domain(c):
-    nv = len(c["vertices"])
-    return all(0 <= i < nv for f in c["faces"] for i in f)
+in_domain = S.in_domain
 
 
 def wellformed(r, nfaces_in, ret, what):
@@ -201,4 +199,6 @@ def oracle(c, o):
 
 
 def classify(c, o, failure, disagrees):
-    return None
+    if c.get("kind") == "unique_bincount":
+        return None
+    return S.negative_index_class(c, o, failure)
